@@ -17,7 +17,7 @@ def header_methods(fb):
 def built_headers(fb, fn):
     """For every success path of `fn` (returning a header or Result<header>): dict(request, flags, size, base, flags_value,
     sym, fn).  Field values are terms; `base` is the value the header was copied from (None for a fresh one)."""
-    f = fb.inl(fn, inline_known=header_methods(fb))
+    f = fb.inl(fn, inline_known=header_methods(fb) + ["default"])
     summ = Summariser(fb, no_inline=lambda g: True)
     outs, sym = summ.paths(f)
     pe = PathEval(fb, f)
@@ -50,3 +50,44 @@ def from_request(t, pname):
         return False
     roots = [s for s in subterms(t) if s[0] == "param"]
     return bool(roots) and all(r[2] == pname for r in roots)
+
+
+def sent_headers(fb, fn, send_names=("send_message", "send_message_with_payload", "send_header")):
+    """For every path of `fn` up to a socket send: dict(flags_value, flags, request, size, atoms, bb) of the header given to
+    that send (argument 1), read field by field."""
+    from vlint.util import sites
+    f = fb.inl(fn, inline_known=header_methods(fb) + ["default"])
+    ss = [bb for bb, t, c in sites(f, name=set(send_names)) if (c.get("self_adt") or "").endswith("::Endpoint")
+          or "Endpoint" in (c.get("self_ty") or "")]
+    if not ss:
+        return f, []
+    summ = Summariser(fb, no_inline=lambda g: True)
+    outs, sym = summ.paths(f, stop=lambda b: b in ss)
+    pe = PathEval(fb, f)
+    res = []
+    for o in outs:
+        if o.ret is not None or not o.path or o.path[-1] not in ss:
+            continue
+        bb = o.path[-1]
+        st = pe.run(o.path[:-1])
+        # statements of the send block itself (argument temporaries) are evaluated too
+        b = f.blocks[bb]
+        for s_ in b["stmts"]:
+            if s_["k"] == "assign":
+                pe.write(st, s_["lhs"], pe.rvalue(st, s_["rv"]))
+        harg = b["term"]["args"][1]
+        v = pe.operand(st, harg)
+        if isinstance(v, tuple) and v and v[0] == "ptr":
+            v = pe.read(st, {"l": v[1], "p": list(v[2])})
+        base, flds = fields_of(v)
+
+        def fld(n):
+            if n in flds:
+                return pe.term(flds[n])
+            if base is not None:
+                return ("field", pe.term(base), n)
+            return None
+        fl = fld("flags")
+        res.append({"request": fld("request"), "flags": fl, "size": fld("size"), "flags_value": const_eval(fb, sym, fl) if fl is not None else None,
+                    "atoms": o.atoms, "bb": bb, "sym": sym})
+    return f, res
